@@ -159,8 +159,14 @@ def run_check(spec, tier="quick", root="/repo", seed=0):
     for r in results:
         functions[r.get("function", r["task"])] = r.get("source_hash", "")
         if r["status"] == "crash":
-            report["crashes"].append({"task": r["task"], "detail": r.get("detail", "")[-1500:]})
-            continue
+            b = load_baseline(pid).get("tasks", {}).get(r["task"])
+            if b and b.get("status") == "ok" and r.get("dep") and b.get("dep") != r.get("dep"):
+                # the engine tripped over code it has not seen (the task verified on the baseline tree and its sources
+                # differ now): that is "outside the verified subset", not a defect of the check on the unchanged tree
+                r = dict(r, status="out-of-subset", detail="engine error on changed sources: " + (r.get("detail", "").strip().splitlines() or ["?"])[-1][:300])
+            else:
+                report["crashes"].append({"task": r["task"], "detail": r.get("detail", "")[-1500:]})
+                continue
         if r["status"] == "out-of-subset":
             # the function left the engine's subset: no proof either way; a failing input found by the
             # directed search on the real code is still a replayed violation
